@@ -50,7 +50,7 @@ class Script:
         e = (d, mine, peer if flags & 0x10 else None, flags, payload)
         return e
 
-    def op(self, name, rng, store=False, override=False):
+    def op(self, name, rng, store=False, override=False, payload=None):
         kw, ov_seq, ov_ack = {}, None, None
         if override and name in ("client_message", "server_message", "client_segment", "server_segment", "client_ack", "server_ack"):
             if rng.random() < 0.7:
@@ -92,8 +92,21 @@ class Script:
             else:
                 self.sv_used += n
             call = Call("f." + name, INT(n))
+        elif name.endswith("_raw_segment") or name.endswith("_hdr"):
+            # a raw segment / a bare header in front of its payload, carried by a hand-made IPv4 datagram: on the wire
+            # it is one more data segment of the flow, and it consumes sequence space like one
+            pl = payload if payload is not None else bytes(rng.getrandbits(8) for _ in range(rng.choice([0, 1, 3, rng.randint(0, 40)])))
+            segs.append(self.seg(d, 0x18, pl))
+            if d == "c":
+                self.cl_used += len(pl)
+            else:
+                self.sv_used += len(pl)
+            a, b = (CL, SV) if d == "c" else (SV, CL)
+            inner = [Call("f." + name, _x=[STR(pl)])] if name.endswith("_raw_segment") else \
+                    [Call("f." + name, bytes=len(pl)), STR(pl)]
+            call = Call("ipv4::datagram", IP(ip(a[0])), IP(ip(b[0])), _x=inner, proto=6)
         else:
-            pl = bytes(rng.getrandbits(8) for _ in range(rng.choice([0, 1, 3, rng.randint(0, 40)])))
+            pl = payload if payload is not None else bytes(rng.getrandbits(8) for _ in range(rng.choice([0, 1, 3, rng.randint(0, 40)])))
             segs.append(self.seg(d, 0x18, pl, seq=ov_seq, ack=ov_ack))
             if ov_seq is None:
                 if d == "c":
@@ -131,7 +144,8 @@ class Script:
 
 
 OPS = ["open", "client_message", "server_message", "client_segment", "server_segment", "client_ack", "server_ack",
-       "client_hole", "server_hole", "client_close", "server_close", "client_reset", "server_reset"]
+       "client_hole", "server_hole", "client_close", "server_close", "client_reset", "server_reset",
+       "client_raw_segment", "server_raw_segment", "client_hdr", "server_hdr"]
 
 
 def segments(pcap):
@@ -227,6 +241,27 @@ def run(ctx):
         c = Case()
         c.name, c.stmts, c.files, c.text, c.meta = "r%d" % i, sc.stmts, {}, None, []
         c.gen = {"script": sc, "kind": "random+override" if with_ov else "random"}
+        cases.append(c)
+    # every data-bearing operation followed by traffic in both directions (a wrongly charged counter shows in the next
+    # segment of either side), and segments longer than 65535 bytes (the account is 32 bits wide, the IP length 16)
+    for j, name in enumerate([o for o in OPS if o.endswith(("message", "segment", "hdr"))] * (3 if ctx.thorough else 1)):
+        sc = Script(*isns[j % 4])
+        sc.op("open", r)
+        sc.op(name, r, payload=bytes(r.getrandbits(8) for _ in range(r.choice([1, 5, 40]))))
+        for nm in ("client_message", "server_message", "client_segment", "server_segment"):
+            sc.op(nm, r)
+        c = Case()
+        c.name, c.stmts, c.files, c.text, c.meta = "d%d" % j, sc.stmts, {}, None, []
+        c.gen = {"script": sc, "kind": "each-op-then-both-directions"}
+        cases.append(c)
+    for j, (name, n) in enumerate([("client_message", 70000), ("server_segment", 65536)] + ([("server_message", 131071)] if ctx.thorough else [])):
+        sc = Script(*isns[j % 4])
+        sc.op("open", r)
+        sc.op(name, r, payload=bytes(r.getrandbits(8) for _ in range(n)))
+        sc.op("client_message", r); sc.op("server_message", r); sc.op("client_close", r)
+        c = Case()
+        c.name, c.stmts, c.files, c.text, c.meta = "g%d" % j, sc.stmts, {}, None, []
+        c.gen = {"script": sc, "kind": "segment-over-64k"}
         cases.append(c)
     diff.run_both(ctx, "c04", cases)
     for c in cases:
